@@ -43,19 +43,21 @@ def run_c12(tier, seed):
     rep = json.load(open(rpath))
     for viol in rep["violations"]:
         c = viol["case"]
-        sig = "auth:%s:%s:%s:%s" % (c["method"], c["form"], c["header"], "on" if c["auth"] else "off")
+        sig = "auth:%s:%s:%s:%s:%s" % (c["method"], c["form"], c["header"], "on" if c["auth"] else "off", c.get("transport", "http"))
         v.report(sig, "%s -> %s" % (sig, "; ".join(viol["why"])), {"kind": "auth", "case": c, "observed": viol})
     cov = {"states": max(1, r["distinct"]), "transitions": max(1, r["generated"]),
            "traces_validated_against_impl": rep["cases"], "exhaustive": True,
            "samples": rep["samples"][:4] or ["none"], "methods_registered": len(methods),
            "cases_expected_executed": rep["expected_executed"], "cases_expected_refused": rep["expected_refused"],
            "forms": ["call", "notification", "batch_first", "batch_mid", "batch_last", "batch_notification", "batch_after_invalid", "batch_before_invalid"],
-           "explanation": "the whole table (every registered method x 6 forms x 5 headers x auth on/off) over HTTP against "
-                          "a server started by the public start(); state digest before/after every request",
+           "transports": ["http", "ws (forms call, notification, batch_mid, batch_notification, batch_after_invalid)"],
+           "explanation": "the whole table (every registered method x 8 forms x 5 headers x auth on/off over HTTP, and 5 forms over "
+                          "a WebSocket connection whose upgrade request carries the header) against a server started by the "
+                          "public start(); state digest before/after every request",
            "checker_cmd": "tlc AuthGate.tla ; vh auth"}
     rc = v.finish()
     common.write_evidence("C12", tier, seed, "model_checking", cov,
-                          ["HTTP only (the WebSocket upgrade path of the same port is not exercised)",
+                          ["one request frame per WebSocket connection (a connection is not reused across cases)",
                            "execution of brc20_commitToDatabase / brc20_initialise as a notification is unobservable from outside"],
                           time.time() - t0, len(v.new))
     return rc
